@@ -91,6 +91,37 @@ func c18(x *Ctx) {
 	}
 	c.Min(rL, 4)
 
+	// ---- every accepted message ends in the change check (expiries are only noticed there) ----------------------
+	const rH = "C18.message-then-check"
+	if f := x.P.Func(pkg, "RedisPubsubPeers", "listen"); f != nil && f.Blocks != nil {
+		c.Examined++
+		as := &eng.Assume{Bool: func(v ssa.Value) eng.Tri {
+			if cl, ok := v.(*ssa.Call); ok && strings.HasSuffix(eng.CalleeName(cl), "peerCommand).unmarshal") {
+				return eng.True
+			}
+			return eng.Unknown
+		}}
+		r := eng.Explore(eng.Query{Fn: f, Assume: as, Classify: func(in ssa.Instruction, _ eng.Facts) eng.Event {
+			if cl, ok := in.(ssa.CallInstruction); ok && strings.HasSuffix(eng.CalleeName(cl), "RedisPubsubPeers).checkHash") {
+				return eng.EvSink
+			}
+			return eng.EvNone
+		}})
+		bad := false
+		var path []*ssa.BasicBlock
+		for _, e := range r.Exits {
+			if _, isRet := e.Instr.(*ssa.Return); isRet && e.Sinks == 0 {
+				bad, path = true, e.Path
+			}
+		}
+		if bad {
+			o := c.Violate(rH, "listen", x.PosOf(f.Pos()), "a membership message that parsed can be handled without the change check (checkHash): entries only expire lazily when the list is read there, so in a quiet cluster – where refreshes of known peers are the only traffic – a crashed peer drops out of the map but the listeners (sharder, samplers) are never told")
+			o.Path = eng.DescribePath(x.P.Pos, path)
+		} else {
+			c.Hold(rH, "listen", x.PosOf(f.Pos()), "parsed message ⇒ checkHash on every path")
+		}
+	}
+
 	// ---- TTL and refresh interval -------------------------------------------------------------------------------
 	const rT = "C18.refresh-faster-than-expiry"
 	timeout, okT := lookupIntConst(x, pkg, "PeerEntryTimeout")
@@ -251,6 +282,47 @@ func c18(x *Ctx) {
 		}
 		c.Decide(same, rC, "unmarshal/actions", x.PosOf(um.Pos()), sprintf("decoder accepts exactly the %d declared actions", len(emitted)),
 			sprintf("the decoder accepts actions %v but the declared (emitted) actions are %v: a membership message some node sends is dropped by its peers", keys(accepted), keys(emitted)))
+	}
+
+	// ---- the decoder hands back pieces of the message, untouched ---------------------------------------------------------
+	const rV = "C18.codec-fields-verbatim"
+	if um := x.P.Func(pkg, "peerCommand", "unmarshal"); um != nil && um.Blocks != nil && len(um.Params) >= 2 {
+		msg := um.Params[1]
+		var verbatim func(v ssa.Value) bool
+		verbatim = func(v ssa.Value) bool {
+			switch y := v.(type) {
+			case *ssa.Parameter:
+				return y == msg
+			case *ssa.Slice:
+				return verbatim(y.X)
+			case *ssa.Phi:
+				for _, e := range y.Edges {
+					if !verbatim(e) {
+						return false
+					}
+				}
+				return len(y.Edges) > 0
+			}
+			return false
+		}
+		n := 0
+		eng.Instrs(um, func(in ssa.Instruction) {
+			st, ok := in.(*ssa.Store)
+			if !ok {
+				return
+			}
+			fr, _, ok := eng.FieldRefOf(st.Addr)
+			if !ok || fr.Struct == nil || fr.Struct.Obj().Name() != "peerCommand" || st.Val.Type().String() != "string" {
+				return
+			}
+			n++
+			c.Examined++
+			c.Decide(verbatim(st.Val), rV, "unmarshal/"+fr.Name, x.Pos(in), "a slice of the received message",
+				"the decoded "+fr.Name+" is not a plain slice of the received message (it is transformed on the way): addresses or IDs no longer round-trip, so a node's own refresh overwrites its entry with a different string and peers disagree with the node about its identity")
+		})
+		if n < 2 {
+			c.Undecided(rV, "unmarshal", x.PosOf(um.Pos()), "cannot find where the decoder stores address and id")
+		}
 	}
 
 	// ---- change notification -----------------------------------------------------------------------------------------------
